@@ -139,6 +139,20 @@ def run(R):
                     "result(x) completes the task with x (AsyncTaskResult.result)", "AsyncTaskResult.result is not the task's value")
             tst = [n for n in ast.walk(h) if isinstance(n, ast.Compare) and "AsyncTaskResult" in q.src(n)]
             R.check(bool(tst), "C01.FLOW-RESULT", driver.qualname + ":result-type", R.site(driver, h), "the AsyncTaskResult case is recognised by its type", "AsyncTaskResult is no longer recognised")
+
+            def is_result(nd):
+                if nd.kind != "test":
+                    return None
+                k, s, pos = q.atom_test(nd.ast)
+                if (k == "is" and any(x.split(".")[-1] == "AsyncTaskResult" for x in s)) or (k == "isinstance" and s[1].split(".")[-1] == "AsyncTaskResult"):
+                    return "T" if pos else "F"
+                return None
+            rnodes = [n for n, c, kind, v in all_comp if kind == "value" and q.src(v) == "%s.result" % h.name and any(c is x for x in ast.walk(h))]
+            if rnodes:
+                p = kit.path_avoiding_guard(dcfg, rnodes, is_result, N)
+                R.check(p is None, "C01.FLOW-RESULT", driver.qualname + ":result-guard", R.site(driver, h),
+                        "`.result` is read only from an exception that is an AsyncTaskResult", "`.result` can be read from a GeneratorExit that is not an AsyncTaskResult (and result(x) is then treated as a plain exit)",
+                        dcfg.fmt_path(p) if p else None)
     ur = repo.fn("utils.result")
     rs = [n for n in q.scope_nodes(ur.node) if isinstance(n, ast.Raise)]
     R.check(len(rs) == 1 and q.src(rs[0].exc) == "async_task.AsyncTaskResult(%s)" % q.param_names(ur.node)[0], "C01.FLOW-RESULT", ur.qualname, R.site(ur),
